@@ -152,6 +152,15 @@ pub fn run(ctx: &Ctx) -> Report {
         // conversions
         let Some(CbKind::Execute { params: got, .. }) = obs.log.cbs.iter().map(|c| &c.kind).find(|k| matches!(k, CbKind::Execute { .. })) else { return };
         for (k, (p, g)) in params.iter().zip(got.iter()).enumerate() {
+            if let Some(PVal::Bytes(b)) = &p.value {
+                if let (Ok(s), Some((_, res))) = (std::str::from_utf8(b), g.conv.iter().find(|(n, _)| *n == "str")) {
+                    if *res != Ok(ConvVal::Str(s.to_string())) {
+                        rep.violations.push(viol("C08", format!("C08 conv {} -> str differs", tname(p.typ)), format!("parameter {}: <&str>::from(value) = {:?}, the client sent {}", k, res, show(b)), d()));
+                        return;
+                    }
+                    rep.counters.inc("conversions_compared");
+                }
+            }
             let Some((name, want)) = expected_conv(p) else { continue };
             let Some((_, res)) = g.conv.iter().find(|(n, _)| *n == name) else {
                 rep.inconclusive.push(format!("conversion {} was not attempted for a {} parameter", name, tname(p.typ)));
